@@ -23,7 +23,8 @@ def gen_dhw_building(rng):
     b.n = n
     v = lambda hi=64 * 200: gen.vec(rng, n, pzero=0.0, hi=hi)
     mix = rng.choice(["electric_pv", "heat_pump", "solar_boiler", "district", "biomass_alone", "biomass_nearby",
-                      "biomass_gas_out", "biomass_gas_noout", "two_biomass", "heat_pump_pv_aux", "cogen_biomass"])
+                      "biomass_gas_out", "biomass_gas_noout", "two_biomass", "heat_pump_pv_aux", "cogen_biomass",
+                      "biomass_small_electric"])
     b.mix = mix
     demand = [Fraction(0)] * n
     add = lambda d, x, f=1: [a + Fraction(c) * f for a, c in zip(d, x)]
@@ -79,6 +80,20 @@ def gen_dhw_building(rng):
                 b.add("SALIDA", id=1, service="CAL", values=[x * Fraction(3, 4) for x in h])
                 b.tags.add("biomass_other_output")
         demand = add(add(demand, g, Fraction(3, 4)), gas, Fraction(7, 8))
+    elif mix == "biomass_small_electric":
+        # a biomass boiler and a small electric backup heater (a fraction of a percent of the demand, well above 0.01 kWh):
+        # electricity is not a nearby carrier, so the output energy declared by the biomass system is what counts
+        g = v()
+        e = [x / rng.choice([128, 256, 512]) for x in g]
+        b.add("CONSUMO", id=1, service="ACS", carrier=rng.choice(["BIOMASA", "BIOMASADENSIFICADA"]), values=g)
+        b.add("CONSUMO", id=2, service="ACS", carrier="ELECTRICIDAD", values=e)
+        if rng.random() < 0.6:
+            b.add("SALIDA", id=1, service="ACS", values=[x * Fraction(3, 4) for x in g])
+            b.add("SALIDA", id=2, service="ACS", values=e)
+            b.mix = "biomass_small_electric_out"
+        else:
+            b.mix = "biomass_small_electric_noout"
+        demand = add(add(demand, g, Fraction(3, 4)), e)
     elif mix == "two_biomass":
         g, g2 = v(), v()
         b.add("CONSUMO", id=1, service="ACS", carrier="BIOMASA", values=g)
@@ -234,7 +249,7 @@ def run(tier, seed):
         elif b.demand_kind == "zero":
             if a0.get("err") != "WrongInput":
                 what = "zero DHW demand but no error reported"
-        elif b.mix == "biomass_gas_noout":
+        elif b.mix in ("biomass_gas_noout", "biomass_small_electric_noout"):
             if a0.get("err") != "WrongInput":
                 what = "biomass mixed with a non-nearby carrier without declared output: no error reported"
         else:
@@ -284,7 +299,7 @@ def closed_form(b, ep):
     if b.mix == "biomass_alone":
         cr = "BIOMASA" if use("BIOMASA") > 0 else "BIOMASADENSIFICADA"
         return FR[cr]
-    if b.mix in ("biomass_gas_out", "two_biomass"):
+    if b.mix in ("biomass_gas_out", "two_biomass", "biomass_small_electric_out"):
         # the DHW output declared for each biomass system, weighted by the renewable share of its fuel
         tot = Fraction(0)
         for k, kw in b.lines:
